@@ -10,6 +10,8 @@ CHECKS = {
             "note": NOTE_Q, "technique": "Coq proof (induction over the flattened matrix, lra/nra) + vm_compute correspondence"},
     "C12": {"text": "Coq theorems for every number type, crossover kind, CR, shape and draw stream: coordinatewise inheritance, at least one mutant coordinate, CR=1 => trial = mutant, CR=0 => exactly one coordinate, exponential mask = circular block whose length is the number of leading draws below CR; + bit-exact correspondence of DEX.do / cross_binomial / cross_exp with recorded and boundary-scripted draws",
             "note": NOTE_ORD, "technique": "Coq proof (induction over draw stream and rows; mod arithmetic) + vm_compute correspondence"},
+    "C10": {"text": "Coq theorems over Q for every parent tensor, F configuration, jitter and draw stream: V = X0 + ((0 + d1) + d2)... with d_k = Feff_k*(X_{2k-1}-X_{2k}), one F per mutant and pair inside [lo,hi], jitter factor within gamma/2 of 1 and centred, exact when F scalar and gamma None (no draws consumed); + bit-exact correspondence of DEM.de_mutation / DEM.do including the order of additions",
+            "note": NOTE_Q, "technique": "Coq proof (structural induction over pairs, nra) + vm_compute correspondence"},
 }
 
 _PENDING = "check not built yet in this session (work in progress, see DESIGN.md section 7)"
